@@ -837,6 +837,9 @@ __yd_diff(dt_yd_t d1, dt_yd_t d2)
 	if (tgtd < 0) {
 		tgty--;
 		tgtd += 365 + ((__leapp(d2.y)) && d2.d >= 60);
+		/* the year we gave up begins in the year before d2's,
+		 * if it begins in Jan or Feb of a leap year it's a day longer */
+		tgtd += d1.d < 60 && __leapp(d2.y - 1);
 	}
 
 	/* fill in the results */
